@@ -272,6 +272,9 @@ func checkC06(w *World, r *Report) {
 	r.Sub(checkC05, "FP-REMAINDER", "FP-CAP")
 	r.Sub(checkC08, "OPEN-GUARD")
 	r.Sub(checkC10, "AL-DOM")
+	// accepted bids are not overwritten: after a restart the bid counter continues where it was, so the remainder keeps
+	// matching the recorded bids
+	r.SubWhere(checkC19, keepAny("BidSeq", "Bid.Id", "PlaceBid:id"), "ID-MONO")
 	r.SubWhere(func(w *World, r *Report) { checkC01(w, r) }, func(_, c string) bool {
 		return strings.HasPrefix(c, "PlaceBid:") && !strings.Contains(c, "BidTypeBatch")
 	}, /* every bid type a fixed price auction can be handed */ "PAIR-RESERVE")
